@@ -160,7 +160,18 @@ func init() {
 	registerIntrinsic("strconv.FormatInt", fmtInt)
 	registerIntrinsic("strconv.FormatUint", native(strconv.FormatUint))
 	registerIntrinsic("strconv.ParseUint", native(strconv.ParseUint))
-	registerIntrinsic("strconv.ParseFloat", native(strconv.ParseFloat))
+	registerIntrinsic("strconv.ParseFloat", func(i *interpreter, fr *frame, fn *ssa.Function, a []value) value {
+		str := a[0].(string)
+		if at, isAtom := i.ctx.atoms[str]; isAtom {
+			// the decimal rendering of a symbolic integer parses back to that integer
+			if i.ctx.branch(i.lastPos, at.ok) {
+				return tuple{symFloat{num: at.val, den: 1}, iface{}}
+			}
+			return tuple{float64(0), i.newError("strconv.ParseFloat: parsing " + str + ": invalid syntax")}
+		}
+		v, err := strconv.ParseFloat(str, int(asInt64(a[1])))
+		return tuple{v, i.hostErr(err)}
+	})
 	registerIntrinsic("strconv.ParseBool", native(strconv.ParseBool))
 	registerIntrinsic("strconv.FormatBool", native(strconv.FormatBool))
 	registerIntrinsic("strconv.FormatFloat", native(strconv.FormatFloat))
@@ -449,7 +460,7 @@ func (c *pathCtx) observe(label string, v value) {
 	case symFloat:
 		o.name, o.sort = fmt.Sprintf("obs!%d", len(c.obsRaw)), SFP
 		c.solver.Declare("(declare-const " + smtName(o.name) + " (_ FloatingPoint 11 53))")
-		c.solver.Assert("(= " + smtName(o.name) + " " + x.t.S + ")")
+		c.solver.Assert("(= " + smtName(o.name) + " " + fpTerm(x).S + ")")
 	case bool, int, int8, int16, int32, int64, uint, uint8, uint16, uint32, uint64, float64, string:
 		o.text = fmt.Sprint(x)
 	default:
